@@ -70,10 +70,12 @@ TrRace == /\ Is("Race")
                  good == CASE Ev.kind \in {"SetNX", "CAS"} -> Ev.trues = SeqTrues(Fresh0, ops, 1)
                            [] Ev.kind = "IncrBy" -> Ev.distinct /\ Ev.final = fin["c1"].v
                            [] Ev.kind = "Append" -> Ev.final = Len(fin["l1"].v)
-                           \* ExpSet: the key holds an EXPIRED (unswept) entry; one caller Sets a never-expiring value while
-                           \* the others only read it (Get / Exists / GetExpiration / GetHash / GetAllHash).  Reads are pure in
-                           \* the reference (KV.tla ReadsArePure, GhostsInvisible), so in every linearization the Set's value
-                           \* is live afterwards: final = 1 means a Get after the round returned it.
+                           \* ExpSet: the key holds an EXPIRED (unswept) entry; two callers write over it (round by round Set / SetNX /
+                           \* CAS(nil -> v) / IncrBy / SetHash / Append - on an expired entry each creates the key anew, and the second
+                           \* writer leaves it live) while the others only read it (GetExpiration / GetHash / GetAllHash, which evict in a
+                           \* second section - spec/MemImpl.tla RdEvict - and Get / Exists / GetList).  Reads are pure in the reference
+                           \* (KV.tla ReadsArePure, GhostsInvisible), so in every linearization the key is live afterwards:
+                           \* final = 1 means Exists after the round said so.
                            [] Ev.kind = "ExpSet" -> Ev.final = 1
                            \* GetMut: the key holds a live value for the whole round; some callers change its lifetime between
                            \* never and long (SetExp / CAS to the same value - Apply keeps the entry present and live in both),
